@@ -471,9 +471,6 @@ func (g *fnGen) selectField(xv string, xt types.Type, sel string, env *evalEnv) 
 				cur, ct = g.fieldAddrTerm(structT, idx, cur), types.NewPointer(fld.Type())
 				continue
 			}
-			if sd := g.sharedFor(structT, fld.Name()); sd != nil && env.mode != "callee" {
-				return "", nil, fmt.Errorf("field %s.%s is declared shared (unstable) and cannot be read in a contract", structT, fld.Name())
-			}
 			cur, ct = g.readField(env.cur, structT, fld, cur), fld.Type()
 			continue
 		}
@@ -912,13 +909,14 @@ func (g *fnGen) evalCall(x *SCall, env *evalEnv) (string, types.Type, error) {
 			if err != nil {
 				return "", nil, err
 			}
+			pt, err := g.P.resolveType(gf.Params[i].T.Text, g.P.typesPkg(gf.PkgPath), g.P.cs.Imports[gf.PkgPath])
+			if err != nil {
+				return "", nil, err
+			}
 			if isNilType(at) {
-				pt, err := g.P.resolveType(gf.Params[i].T.Text, g.P.typesPkg(gf.PkgPath), g.P.cs.Imports[gf.PkgPath])
-				if err != nil {
-					return "", nil, err
-				}
 				v, at = g.R.zero(pt), pt
 			}
+			v, at = g.coerceTo(v, at, pt)
 			ne.bound[gf.Params[i].Name] = binding{v, at}
 		}
 		// the body is resolved in the declaring package's scope, against the caller's state
@@ -950,6 +948,8 @@ func (g *fnGen) evalCall(x *SCall, env *evalEnv) (string, types.Type, error) {
 			}
 			if isNilType(at) {
 				v = g.R.zero(ptypes[i])
+			} else {
+				v, _ = g.coerceTo(v, at, ptypes[i])
 			}
 			args = append(args, v)
 		}
@@ -1218,4 +1218,17 @@ func (g *fnGen) fieldLocs(structT types.Type, field, key string) ([]assignLoc, e
 		return locs, nil
 	}
 	return []assignLoc{{g.fieldArrayName(cur, f), key, "(Array Int " + g.R.sortOf(f.Type()) + ")"}}, nil
+}
+
+// coerceTo boxes a concrete value into an interface when the target type is an interface.
+func (g *fnGen) coerceTo(v string, from, to types.Type) (string, types.Type) {
+	if _, toI := to.Underlying().(*types.Interface); toI {
+		if _, fromI := from.Underlying().(*types.Interface); !fromI {
+			if _, isMM := from.(*MathMap); !isMM {
+				return S("mk-iface", fmt.Sprint(g.R.tagOf(from)), g.R.box(g.R.sortOf(from), v)), to
+			}
+		}
+		return v, to
+	}
+	return v, from
 }
